@@ -603,8 +603,9 @@ def check_synthesis(ctx, cirq, n):
     # controlled rotations by small angles and close to a Pauli, systematically: nothing larger than the tolerance may be dropped
     for t in (3e-5, 1e-5) if ctx.tier == 'quick' else (1e-3, 1e-4, 3e-5, 1e-5, 3e-6, 1e-7):
         for gname, g in (('rx', cirq.rx(t)), ('ry', cirq.ry(t)), ('rz', cirq.rz(t)), ('ry(pi-t)', cirq.ry(np.pi - t)), ('rx(pi+t)', cirq.rx(np.pi + t)), ('phxz', cirq.PhasedXZGate(x_exponent=t, z_exponent=0.3, axis_phase_exponent=0.2)),
-                         ('Z**t', cirq.ZPowGate(exponent=t)), ('Z**(1-t)', cirq.ZPowGate(exponent=1 - t)), ('X**t shifted', cirq.XPowGate(exponent=t, global_shift=0.25))):
-            for nc in (1, 2):
+                         ('Z**t', cirq.ZPowGate(exponent=t)), ('Z**(1-t)', cirq.ZPowGate(exponent=1 - t)), ('X**t shifted', cirq.XPowGate(exponent=t, global_shift=0.25)),
+                         ('diag(1, e^{it})', cirq.MatrixGate(np.diag([1, np.exp(1j * t)]))), ('e^{it/3} rx(0.4)', cirq.MatrixGate(np.exp(1j * t / 3) * cirq.unitary(cirq.rx(0.4))))):
+            for nc in (1, 2, 3):
                 sq = cirq.unitary(g)
                 qs = cirq.LineQubit.range(nc + 1)
                 ops = list(cirq.flatten_to_ops(cirq.decompose_multi_controlled_rotation(sq, list(qs[:nc]), qs[nc])))
@@ -613,7 +614,7 @@ def check_synthesis(ctx, cirq, n):
                 want[-2:, -2:] = sq
                 ctx.count('check', 'multi_controlled_rotation:small-angle')
                 ctx.case(['mcr-small', gname, t, nc], True)
-                if not np.allclose(got, want, atol=1e-6):
+                if not np.allclose(got, want, rtol=0, atol=1e-6):
                     ctx.report_witness('synth:multi-controlled:small-angle', 'decompose_multi_controlled_rotation: the product is not the controlled unitary (a small rotation was dropped)',
                                        {'lines': [{'gate': gname, 't': t, 'controls': nc}], 'impl_out': [len(ops), float(np.max(np.abs(got - want)))], 'spec_out': ['controlled-U within 1e-6'], 'theorem_or_correspondence': 'operation product via applyOps'})
     # three qubits, n qubits, controlled rotations, Cliffords
